@@ -426,3 +426,77 @@ func TestWitnessSubscriptionLive(t *testing.T) {
 		}
 	}
 }
+
+// TestWitnessSubscriptionReentrant: a finalizer that unsubscribes (or adds to) its own subscription, and a second
+// Unsubscribe issued while the finalizers of the first are still running, return at once - the second call is a
+// no-op, it does not wait for the first. Each scenario runs on its own goroutine and is given two seconds.
+func TestWitnessSubscriptionReentrant(t *testing.T) {
+	within := func(what string, f func()) bool {
+		done := make(chan struct{})
+		go func() {
+			defer close(done)
+			f()
+		}()
+		select {
+		case <-done:
+			return true
+		case <-time.After(2 * time.Second):
+			fmt.Printf("REPLAY-FAIL subscription: %s did not return within 2s\n", what)
+			t.Errorf("WITNESS subscription: %s hangs", what)
+			return false
+		}
+	}
+	// a finalizer unsubscribes its own subscription
+	{
+		sub := NewSubscription(nil)
+		var ran int32
+		sub.Add(func() {
+			atomic.AddInt32(&ran, 1)
+			sub.Unsubscribe()
+		})
+		if !within("Unsubscribe() with a finalizer that calls Unsubscribe() on the same subscription", sub.Unsubscribe) {
+			return
+		}
+		if atomic.LoadInt32(&ran) != 1 {
+			fmt.Printf("REPLAY-FAIL subscription: a finalizer that unsubscribes its own subscription ran %d time(s)\n", ran)
+			t.Errorf("WITNESS subscription: re-entrant finalizer ran %d times", ran)
+		}
+	}
+	// a finalizer adds to its own (by now closed) subscription: the late teardown runs at once, once
+	{
+		sub := NewSubscription(nil)
+		var late int32
+		sub.Add(func() {
+			sub.Add(func() { atomic.AddInt32(&late, 1) })
+		})
+		if !within("Unsubscribe() with a finalizer that calls Add() on the same subscription", sub.Unsubscribe) {
+			return
+		}
+		if atomic.LoadInt32(&late) != 1 {
+			fmt.Printf("REPLAY-FAIL subscription: a teardown added by a finalizer of the same subscription ran %d time(s)\n", late)
+			t.Errorf("WITNESS subscription: late teardown ran %d times", late)
+		}
+	}
+	// a second Unsubscribe while the first is still running its finalizers
+	{
+		sub := NewSubscription(nil)
+		release := make(chan struct{})
+		entered := make(chan struct{})
+		sub.Add(func() {
+			close(entered)
+			<-release
+		})
+		first := make(chan struct{})
+		go func() {
+			defer close(first)
+			sub.Unsubscribe()
+		}()
+		<-entered
+		ok := within("a second Unsubscribe() while the finalizers of the first are running", sub.Unsubscribe)
+		close(release)
+		<-first
+		if !ok {
+			return
+		}
+	}
+}
